@@ -25,6 +25,10 @@ func (p *Puback) String() string {
 // NewPubackPacket returns a Puback instance by the given FixHeader and io.Reader
 func NewPubackPacket(fh *FixHeader, version Version, r io.Reader) (*Puback, error) {
 	p := &Puback{FixHeader: fh, Version: version}
+	// the flags of the fixed header are reserved [MQTT-2.2.2-2]
+	if fh.Flags != FlagReserved {
+		return nil, codes.ErrMalformed
+	}
 	err := p.Unpack(r)
 	if err != nil {
 		return nil, err
